@@ -6,7 +6,7 @@ import gen_kern as G
 
 ID = "C08"
 LEAN_MODULES = ["CatiiProps.C08"]
-USES_TRANSLATOR = True   # Gen/KernelsGen.lean is rewritten from the current set_operations.pyx (tools/translate_pyx.py)
+USES_TRANSLATOR = ['kernels']   # Gen/KernelsGen.lean is rewritten from the current set_operations.pyx (tools/translate_pyx.py)
 TRUSTED = ["tools/translate_pyx.py (Cython subset -> Lean: checked reads/writes, loops as recursive functions); C int "
            "arithmetic modelled in N with checked subtraction"]
 RULE = ("exhaustive: all ordered pairs of subsets of a small universe containing 0 and 2^32-1 (6 elements quick, 8 "
